@@ -16,6 +16,7 @@ ID = 'C17'
 BUDGET = {'quick': 1000, 'thorough': 80000}
 WALL = {'quick': 150, 'thorough': 3000}
 CHUNK = 8
+REACH_N = 40
 DET_K = 4
 CASE_TIMEOUT = 900
 SELFTEST = {'quick': 12, 'thorough': 128}
